@@ -4,7 +4,7 @@
    property predicates (C02 timestamp, C03, C04, C05, C06, C14, C18) are evaluated on the
    implementation's outcomes and Report structs. *)
 From stdpp Require Import gmap.
-From DS Require Import Base Decimal StreamValue Sort Aggregators RepoConstants Outcome Observe OutcomeCodec PluginOutcome.
+From DS Require Import Base Decimal StreamValue Sort Aggregators RepoConstants Outcome Observe OutcomeCodec PluginOutcome ObservationCodec PluginOutcomeBytes.
 Open Scope Z_scope.
 
 Inductive rep_kind := RepNone | RepOk | RepErr | RepPanic.
@@ -21,6 +21,9 @@ Record round := {
   rd_refused : bool;                                 (* a correct node's Observation returned an error *)
   rd_out : res outcome;                              (* Plugin.Outcome, decoded by the implementation's codec *)
   rd_bytes : option (list Z * list Z);               (* (previous outcome bytes, bytes returned by Plugin.Outcome), small rounds only *)
+  (* wire level: the observation bytes handed to Outcome (in order) and what the retirement-report cache answered for
+     every attestation occurring in them; kept for small rounds only *)
+  rd_wire : option (list (list Z) * list (list Z * option (gmap Z Z)));
   rd_rep : rep_kind;                                 (* Plugin.Reports *)
   rd_retirement : option (gmap Z Z);
   rd_reports : list report }.
@@ -48,6 +51,21 @@ Definition hash_table (tbl : list ((Z * chandef) * list Z)) (c : Z) (d : chandef
 (* what the outcome codecs decode from an empty byte string (no outcome committed yet) *)
 Definition empty_outcome : outcome := {| o_stage := OtherStage []; o_ts := 0; o_defs := ∅; o_va := ∅; o_aggs := ∅ |}.
 Definition default_cfg : cfg := {| c_f := 0; c_pver := 1; c_interval := 1; c_has_pred := false |}.
+
+(* observations as the wire-level model decodes them vs as the implementation decoded them (removal votes as a set) *)
+Global Instance attest_eq_dec : EqDecision attest. Proof. solve_decision. Defined.
+Definition obs_eqb (a b : observation) : bool :=
+  bool_decide (ob_att a = ob_att b) && Bool.eqb (ob_retire a) (ob_retire b) && (ob_ts a =? ob_ts b) &&
+  bool_decide ((list_to_set (ob_removes a) : gset Z) = list_to_set (ob_removes b)) &&
+  (length (ob_removes a) =? length (ob_removes b))%nat &&
+  bool_decide (ob_updates a = ob_updates b) && bool_decide (ob_values a = ob_values b).
+Fixpoint obs_list_eqb (a b : list (option observation)) : bool :=
+  match a, b with
+  | [], [] => true
+  | Some x :: a', Some y :: b' => obs_eqb x y && obs_list_eqb a' b'
+  | None :: a', None :: b' => obs_list_eqb a' b'
+  | _, _ => false
+  end.
 
 (* ---- agreement ---- *)
 Fixpoint sval_eqv (a b : sval) : bool :=
@@ -228,6 +246,18 @@ Definition eval_round (h : Z -> chandef -> list Z) (cfgs : list cfg) (a : acc) (
                      | Some (pb, ob) => if exact then match plugin_outcome h cf seq pb aos with Ok b => bool_decide (b = ob) | _ => false end
                                         else true
                      | None => true end in
+  (* wire level: decoding the observation bytes (and asking the cache) gives the observations the implementation
+     decoded, and the wire-to-wire model of Plugin.Outcome predicts exactly the bytes Go returned *)
+  let wire_agree := match rd_wire rd with
+                    | Some (obs_bytes, tbl) =>
+                        let chk := check_of_table tbl in
+                        obs_list_eqb (map (obs_of_bytes chk) obs_bytes) aos &&
+                        match rd_bytes rd with
+                        | Some (pb, ob) => if exact then match plugin_outcome_bytes h chk cf seq pb obs_bytes with Ok b => bool_decide (b = ob) | _ => false end
+                                           else true
+                        | None => true end
+                    | None => true end in
+  let bytes_agree := bytes_agree && wire_agree in
   match rd_out rd with
   | Ok next =>
       let obs := decodable (rd_aos rd) in
@@ -330,7 +360,7 @@ Definition eval_round (h : Z -> chandef -> list Z) (cfgs : list cfg) (a : acc) (
   | _ =>
       (* an erroring round commits nothing and emits nothing *)
       {| a_states := a_states a; a_pred_last := a_pred_last a;
-         a_mismatch := a_mismatch a || negb agree;
+         a_mismatch := a_mismatch a || negb agree || negb bytes_agree;
          a_c02 := a_c02 a; a_c03 := a_c03 a; a_c04 := a_c04 a; a_c05 := a_c05 a; a_c06 := a_c06 a;
          a_c14 := a_c14 a || (if hand_built then false else rd_refused rd && negb (is_panic (rd_out rd)) && false);
          a_c18 := a_c18 a;
@@ -366,7 +396,9 @@ Definition hist_eval (cs : list hist_case) :=
    [sum_nat (map a_rounds rs); sum_nat (map a_reports rs); sum_nat (map a_promotions rs);
     sum_nat (map a_retirements rs); sum_nat (map a_errors rs);
     (* rounds whose Outcome bytes were compared with the byte-level model *)
-    sum_nat (map (fun c => length (filter (fun rd => match rd_bytes rd with Some _ => (length (decodable (rd_aos rd)) <=? 12)%nat | None => false end) (hc_rounds c))) cs)]).
+    sum_nat (map (fun c => length (filter (fun rd => match rd_bytes rd with Some _ => (length (decodable (rd_aos rd)) <=? 12)%nat | None => false end) (hc_rounds c))) cs);
+    (* rounds whose observation bytes were decoded by the model and compared *)
+    sum_nat (map (fun c => length (filter (fun rd => match rd_wire rd with Some _ => true | None => false end) (hc_rounds c))) cs)]).
 
 (* debugging aid: per round, which flags are raised after it *)
 Definition flags (a : acc) := (a_mismatch a, a_c02 a, a_c03 a, a_c04 a, (a_c05 a, a_c06 a, a_c14 a, a_c18 a)).
